@@ -925,6 +925,22 @@ fn main() {
             std::process::exit(0);
         }
         // recovery_scenario two_wals_stale_sequence|two_wals_reuse : two write-ahead logs at or above the manifest's WAL number
+        "table_rebuild" => {
+            // table 1 is built twice on the same file system (the second build finds a leftover file with its number)
+            let fs = std::sync::Arc::new(raindb::fs::InMemoryFileSystem::new());
+            let o = v::options_with(fs, 400);
+            let first: Vec<(Vec<u8>, u64, bool, Vec<u8>)> = (0..40u8).map(|i| (vec![b'a', i], 9, true, vec![i; 50])).collect();
+            let ents: Vec<(&[u8], u64, bool, &[u8])> = first.iter().map(|e| (e.0.as_slice(), e.1, e.2, e.3.as_slice())).collect();
+            println!("first_build={}", v::table_build(&o, &ents));
+            println!("len1={}", v::table_file_len(&o));
+            let second: Vec<(Vec<u8>, u64, bool, Vec<u8>)> = vec![(b"zz".to_vec(), 7, true, b"B".to_vec())];
+            let ents2: Vec<(&[u8], u64, bool, &[u8])> = second.iter().map(|e| (e.0.as_slice(), e.1, e.2, e.3.as_slice())).collect();
+            println!("second_build={}", v::table_build(&o, &ents2));
+            println!("len2={}", v::table_file_len(&o));
+            let (code, _) = v::table_get(&o, b"zz", 100);
+            let names = ["Ok(Some)", "Ok(None)", "Err(KeyNotFound)", "Err(other)"];
+            println!("second_build_get={}", names[code as usize]);
+        }
         "vs_recover" => {
             // a database is created, written and closed; a fresh version set recovers from its files
             use raindb::WriteOptions;
